@@ -136,6 +136,30 @@ CommitUnchanged ==
     /\ writer' = NoWriter /\ res' = "ok"
     /\ UNCHANGED <<versions, allIds, published, readers, policy>>
 
+(* a commit during which the user's pruning predicate RAISES: the call fails.  The property
+   does not say how far such a commit gets - the new version may or may not have been
+   published, pruning may have stopped anywhere - but whatever is retained is still a
+   suffix of the history that keeps the newest and every pinned version, a published id is
+   greater than all earlier ones, and the write transaction is over.  (Whether another
+   writer can be admitted after such a fault is a matter of writer admission, C12: in this
+   specification no write transaction is begun afterwards.) *)
+CommitFaulted(pub, nid, k) ==
+    /\ writer.state = "dirty"
+    /\ pub => nid > Last(allIds)
+    /\ LET vs == IF pub THEN Append(versions, [id |-> nid, content |-> writer.work]) ELSE versions
+       IN /\ k \in 1..Len(vs)
+          /\ \A j \in 1..(k - 1) : vs[j].id < LeastKept(readers, vs)
+          /\ versions' = SubSeq(vs, k, Len(vs))
+    /\ allIds' = IF pub THEN Append(allIds, nid) ELSE allIds
+    /\ published' = IF pub THEN (nid :> writer.work) @@ published ELSE published
+    /\ writer' = [state |-> "failed", repl |-> FALSE, work |-> Empty]
+    /\ res' = "refused"
+    /\ UNCHANGED <<readers, policy>>
+
+(* any call (add, replace, delete, commit, rollback ...) on a write transaction that has
+   ended - normally or by a failed commit: refused, nothing changes *)
+ReuseEndedWriter == writer.state \in {"none", "failed"} /\ Refuse
+
 (* rollback (or an exception leaving the with block): nothing is published *)
 Rollback ==
     /\ writer.state \in {"clean", "dirty"}
@@ -190,6 +214,8 @@ Next ==
     \/ \E b \in BOOLEAN : BeginWrite(b)
     \/ \E c \in Contents : Stage(c)
     \/ CommitChanged(Last(allIds) + 1) \/ CommitUnchanged \/ Rollback
+    \/ \E pub \in BOOLEAN, k \in 1..(Len(versions) + 1) : CommitFaulted(pub, Last(allIds) + 1, k)
+    \/ ReuseEndedWriter
     \/ \E n \in MaxVersionArgs : SetMaxVersions(n)
     \/ SetUnlimited \/ SetDefaultPolicy
     \/ \E p \in CustomPolicies : SetCustomPolicy(p)
@@ -202,7 +228,7 @@ Spec == Init /\ [][Next]_vars
 (* Properties (checked by TLC on the bounded instance MC_VersionedZone) *)
 TypeOK ==
     /\ Len(versions) >= 1
-    /\ writer.state \in {"none", "clean", "dirty"}
+    /\ writer.state \in {"none", "clean", "dirty", "failed"}
     /\ res \in {"ok", "refused"}
     /\ DOMAIN readers \subseteq Rids
 
@@ -224,6 +250,7 @@ PinnedRetained == Pinned(readers) \subseteq IdSet(versions)
 (* ... and is otherwise exactly what the policy allows: the oldest retained version is
    the newest, or is not older than every pinned version, or the policy keeps it *)
 Exact ==
+    \/ writer.state = "failed"      \* a prune pass was interrupted by a raising predicate: exactness is not claimed
     \/ Len(versions) = 1
     \/ Head(versions).id >= LeastKept(readers, versions)
     \/ ~Prunes(policy, versions, Head(versions))
@@ -245,7 +272,7 @@ OpenOnlyRetained == [][\A r \in DOMAIN readers' \ DOMAIN readers : readers'[r].v
 
 (* versions appear only by committing a changed write transaction, one at a time *)
 OnlyCommitPublishes ==
-    [][allIds' # allIds => (writer.state = "dirty" /\ writer'.state = "none" /\ Len(allIds') = Len(allIds) + 1
+    [][allIds' # allIds => (writer.state = "dirty" /\ writer'.state \in {"none", "failed"} /\ Len(allIds') = Len(allIds) + 1
                             /\ published'[Last(allIds')] = writer.work)]_vars
 
 (* pruning only ever removes a prefix *)
@@ -254,5 +281,7 @@ PruneOnlyOldest ==
     [][IF allIds' # allIds THEN IsSuffix(versions', Append(versions, Last(versions'))) ELSE IsSuffix(versions', versions)]_vars
 
 (* a refused call changes nothing *)
-RefusedIsNoop == [][res' = "refused" => UNCHANGED <<versions, allIds, published, readers, policy, writer>>]_vars
+(* (except a commit that fails half-way because the user's pruning predicate raised) *)
+RefusedIsNoop == [][(res' = "refused" /\ ~(writer.state = "dirty" /\ writer'.state = "failed"))
+                      => UNCHANGED <<versions, allIds, published, readers, policy, writer>>]_vars
 =============================================================================
